@@ -4,7 +4,9 @@ Monitors: post-conditions on every execution of eqsig.im.calc_sig_dur_vals / cal
 calc_brac_dur / calc_bracketed_duration (wherever the call comes from, e.g. AccSignal.generate_duration_stats). The oracle
 (vf/oracles/durations.py) recomputes the cumulative measure from the record in exact integer arithmetic and evaluates the
 index set of the definition; what a floating-point implementation may answer differently is an explicit uncertainty band
-(two-sided knife-edge rule), which is zero when the arithmetic is exact, so strict vs non-strict inequalities are decided.
+(two-sided knife-edge rule), which is zero when the arithmetic is exact (integer-valued records with representable
+fraction*total, for the cumulative squares and for the custom measure's own output), so strict vs non-strict inequalities
+are decided there. Arias comparisons always keep a band (the rounding of the constant pi/(2*9.81)*dt is not fixed).
 The driver adds the relations between executions (scaling, zero prepending, nesting, monotonicity, se pair vs scalar,
 object with a history vs fresh object).
 """
@@ -46,7 +48,20 @@ EXHAUSTIVE = {'quick': 'all sequences over {-2,-1,0,1,2} of length 2..5 x fracti
                        'thresholds {0,1,2} (array-level, Arias with dt=0.5, custom cumsum|x|, bracketed)',
               'thorough': 'all sequences over {-2,-1,0,1,2} of length 2..6 x fractions {(1/4,3/4),(1/8,1/2),(1/2,15/16)} x '
                           'thresholds {0,1,2} (array-level, Arias with dt=0.5, custom cumsum|x|, bracketed)'}
-MIN_EVALS = {'quick': {}, 'thorough': {}}   # filled in below
+_MIN_QUICK = {   # ~50 % of what a normal quick run reaches (seeds 0-3)
+    'sigvals.start/end==definition': 14000, 'sigvals.duration==definition': 17000,
+    'sigdur.arias.start/end==definition': 15000, 'sigdur.arias.duration==definition': 12000,
+    'sigdur.custom.start/end==definition': 12000, 'sigdur.custom.duration==definition': 8500,
+    'alias.significant_duration.duration==definition': 8500,
+    'sig.0<=start<=end<=T': 85000, 'sig.lower-tie-excluded(exact)': 5000, 'sig.upper-tie-excluded(exact)': 6500,
+    'brac.start/end==definition': 25000, 'brac.duration==definition': 30000, 'brac.none-exceeds->(None,None)/0': 16000,
+    'alias.bracketed_duration.duration==definition': 6500, 'brac.threshold==|a_i| decided strictly': 30000,
+    'brac.single-exceeder(se=True)': 5000, 'brac.single-exceeder(se=False)': 7500,
+    'rel.se-pair-difference==scalar': 45000, 'rel.scale-pow2-invariant': 7000, 'rel.scale-any-invariant': 900,
+    'rel.zero-prepend-shift': 3500, 'rel.nested-fractions': 10000, 'rel.brac-monotone-threshold': 14000,
+    'rel.brac-joint-scale-invariant': 11000, 'rel.history==fresh': 5500}
+_THOROUGH_FACTOR = {'rel.history==fresh': 15, 'rel.scale-any-invariant': 15, 'rel.zero-prepend-shift': 15}
+MIN_EVALS = {'quick': _MIN_QUICK, 'thorough': {k: v * _THOROUGH_FACTOR.get(k, 10) for k, v in _MIN_QUICK.items()}}
 
 CTX = None
 CURRENT = {'case': None, 'probe': False}
